@@ -32,6 +32,9 @@ def configs(tier):
                     if tier == "quick" and header == 1 and line_delimiter in ("cr", "any") and not checks:
                         continue
                     result.append({"preset": preset, "header": header, "fields": fields, "checks": checks, "line_delimiter": line_delimiter})
+    # allowed characters restricted to printable ASCII: white-space-like characters at either end of a value are characters like any other
+    for preset in ("fixed", "delimited"):
+        result.append({"preset": preset, "header": 0, "fields": ["id", "name"], "checks": [], "line_delimiter": "lf", "allowed": [[32, 126, False]]})
     # a free-text field in the last column: its values may end in white space or consist of it
     for line_delimiter in ("lf", "crlf"):
         result.append({"preset": "delimited", "header": 0, "fields": ["id", "name"], "checks": [["uniq", "IsUnique", "id, name"]], "line_delimiter": line_delimiter})
@@ -43,7 +46,7 @@ def configs(tier):
 
 def cid_rows_for(config, decls):
     extra = [("Quote character", config["dialect"][0]), ("Escape character", config["dialect"][1])] if config.get("dialect") else []
-    return harness.cid_rows(config["preset"], decls, config["checks"], config["header"], line_delimiter=config["line_delimiter"], extra=extra)
+    return harness.cid_rows(config["preset"], decls, config["checks"], config["header"], line_delimiter=config["line_delimiter"], extra=extra, allowed=config.get("allowed"))
 
 
 def make_cid(config, decls):
@@ -82,6 +85,13 @@ def shapes_for(config):
         row = list(dict(shapes).get("ok2", dict(shapes)["ok0"]))
         row[config["fields"].index("name")] = "a\x0c\u2028"
         shapes.append(("ok2-name-with-form-feed-and-line-separator", row))
+    if config.get("allowed") and "name" in config["fields"]:
+        base = dict(shapes)["ok1"]
+        column = config["fields"].index("name")
+        for label, value in (("tab-behind", "c\t"), ("nel-in-front", "\x85c"), ("nbsp-behind", "c\xa0"), ("tab-inside", "a\tb"), ("plain", "ab")):
+            row = list(base)
+            row[column] = value
+            shapes.append(("name-" + label, row))
     if config["preset"] == "delimited" and config["fields"][-1] == "name":
         base = dict(shapes)["ok1"]
         for label, value in (("ends-in-blank", "c "), ("blank-only", " "), ("ends-in-tab", "c\t"), ("starts-with-blank", " c")):
